@@ -31,7 +31,9 @@ class Contract:
             if isinstance(spec, str):
                 spec = {"when": spec}
             self.raises[exc] = {"when": spec["when"], "state": spec.get("state", "unchanged"),
-                                "must": bool(spec.get("must", True))}
+                                "must": bool(spec.get("must", True)),
+                                # clauses that hold in the state in which the exception leaves the function
+                                "ensures": _named(spec.get("ensures", []), "exc")}
         self.modifies = list(kw.pop("modifies", []))       # e.g. ["self._bloom", "self._els_added"]
         self.loops = dict(kw.pop("loops", {}))             # ordinal -> {"invariant": [...]}
         for k, v in list(self.loops.items()):
@@ -59,6 +61,11 @@ class Contract:
         self.result_is = kw.pop("result_is", None)
         # names of @opaque specification functions whose definition this proof may use
         self.reveal = list(kw.pop("reveal", []))
+        # declared types of locals that start as an empty list literal: name -> type string
+        self.locals = dict(kw.pop("locals", {}))
+        # list-valued fields (subset of modifies) that the function replaces by a NEW list object before it mutates
+        # them: references to the old list object held by callers stay valid (lists are modelled by value)
+        self.rebinds = list(kw.pop("rebinds", []))
         self._kw = None
         # extra runs with some parameter types replaced, e.g. [{"second": "obj:BloomFilterOnDisk"}, {"second": "foreign"}]
         self.variants = list(kw.pop("variants", []))               # lemma text: local name -> contract key
